@@ -21,15 +21,15 @@ SIX = {
 
 
 def check(ctx):
-    r031_wiring(ctx, "R03.1")
-    r033_generated(ctx)
+    ctx.guard(r031_wiring, ctx, "R03.1")
+    ctx.guard(r033_generated, ctx)
     ctx.rule("R03.4", "the base rates are scalar valued for single-member / single-weighted-row groups (shared with C14 R14.4)")
-    c14.r144_scalar(ctx, rule="R03.4")
+    ctx.guard(c14.r144_scalar, ctx, rule="R03.4")
     ctx.rule("R03.5", "the base rates themselves are the documented confusion-matrix entries / weighted means (shared with "
                       "C14 R14.1, R14.2, R14.5)")
-    c14.r141_siblings(ctx, rule="R03.5")
-    c14.r142_labels(ctx, rule="R03.5")
-    c14.r145_formulas(ctx, rule="R03.5")
+    ctx.guard(c14.r141_siblings, ctx, rule="R03.5")
+    ctx.guard(c14.r142_labels, ctx, rule="R03.5")
+    ctx.guard(c14.r145_formulas, ctx, rule="R03.5")
 
 
 def r031_wiring(ctx, rule, only_weights=False):
